@@ -383,5 +383,8 @@ def transfer_col_references(table, ref_source):
         uuid_map={uid: ref_source._cache.name_to_uuid[name] for uid, name in table._cache.uuid_to_name.items()},
     )
     new._cache = table._cache.update(new._ast)
+    # The columns are shared with `ref_source` now, so the result counts as derived from
+    # the same tables (e.g. it cannot be joined with them without an `alias`).
+    new._cache.derived_from = new._cache.derived_from | ref_source._cache.derived_from
 
     return new
